@@ -1311,21 +1311,26 @@ class Gen:
                         break
                 out.append((2, (r.choice([T_BOOT, T_BOOT, 0, self.u(32)]), u if (wf or r.chance(5, 6)) else None)))
         if r.chance(1, 2):
+            cwf = [wf]
+
             def kvs():
-                return [(self.bstr(wf), self.bstr(wf)) for _ in range(r.choice([0, 1, 2, 3, 5]))]
+                return [(self.bstr(cwf[0]), self.bstr(cwf[0])) for _ in range(r.choice([0, 1, 2, 3, 5]))]
 
             def annot():
                 ty = r.choice([1, 1, 1, 0, 2, 0x7fff, 0x8000, 0x8001, 0xffff, self.u(16)])
-                return (self.bstr(wf), ty, r.choice([0, 0, self.u(16)]), self.bstr(wf) if ty == 1 else self.u(32))
+                return (self.bstr(cwf[0]), ty, r.choice([0, 0, self.u(16)]), self.bstr(cwf[0]) if ty == 1 else self.u(32))
             for _ in range(r.choice([1, 1, 1, 1, 2])):
-                ver = r.choice([1, 1, 1, 2, self.u(32)]) if (wf or r.chance(5, 6)) else 0
-                if wf and ver == 0:
+                # one stream in ten: every string valid, but one of them loses its NUL terminator (the reader must refuse it)
+                nonul = r.below(1000) if r.chance(1, 10) else -1
+                cwf[0] = wf or nonul >= 0
+                ver = r.choice([1, 1, 1, 2, self.u(32)]) if (cwf[0] or r.chance(5, 6)) else 0
+                if cwf[0] and ver == 0:
                     ver = 1
-                out.append((3, {"nonul": r.below(1000) if (not wf and r.chance(1, 8)) else -1, "ver": ver, "report": [self.u(32), self.u(16), self.u(16)] + [r.below(256) for _ in range(8)],
+                out.append((3, {"nonul": nonul, "ver": ver, "report": [self.u(32), self.u(16), self.u(16)] + [r.below(256) for _ in range(8)],
                                 "client": [self.u(32), self.u(16), self.u(16)] + [r.below(256) for _ in range(8)],
                                 "simple": kvs(),
                                 "mods": [{"idx": self.u(32) if r.chance(1, 3) else r.below(8), "ver": r.choice([1, 0, self.u(32)]),
-                                          "list": [self.bstr(wf) for _ in range(r.choice([0, 1, 2, 4]))], "simple": kvs(),
+                                          "list": [self.bstr(cwf[0]) for _ in range(r.choice([0, 1, 2, 4]))], "simple": kvs(),
                                           "objs": [annot() for _ in range(r.choice([0, 1, 2, 4]))]}
                                          for _ in range(r.choice([0, 1, 1, 2, 3]))]}))
         if self.cur_no_hnd and r.chance(1, 2):
